@@ -184,18 +184,23 @@ def run_mp_case(seed, idx):
     # the pool workers are therefore started through a fork server (clean single-threaded parent)
     if _mp.get_start_method(allow_none=True) != "forkserver":
         _mp.set_start_method("forkserver", force=True)
+        # the fork server imports strax once; pool workers forked from it start in milliseconds
+        _mp.set_forkserver_preload(["strax", "vf.harness.mp_plugins"])
 
     rng = gen.rng_for(seed, "c01mp", idx)
     rows, end = gen.gen_disjoint_rows(rng, rng.randint(1, 8), 0, 1)
     t1 = end + rng.choice([0, 3])
     cuts = gen.gen_cuts(rng, rows, 0, t1, 1, max_inner=4)
     case = {"mp": True, "rows": rows, "cuts": cuts, "target": rng.choice(["mptop", "mptop", "mpma", "mpmb"]),
-            "max_messages": rng.choice([4, 10])}
+            "max_messages": rng.choice([4, 10]),
+            # source in the pool too: strax then inlines the whole chain and its savers into one ParallelSourcePlugin
+            "inline": rng.random() < 0.5}
+    reg = mp.ALL_INLINE if case["inline"] else mp.ALL
     viol, cnt = [], {}
     out = mp.whole_run(rows)
     d = hrun.mktemp("c01mp-")
     try:
-        st = strax.Context(storage=[strax.DataDirectory(d)], register=mp.ALL,
+        st = strax.Context(storage=[strax.DataDirectory(d)], register=reg,
                            config=dict(mp_rows=tuple(rows), mp_cuts=tuple(cuts)), allow_multiprocess=True,
                            allow_lazy=False, max_messages=case["max_messages"], timeout=120,
                            processors=["threaded_mailbox"])
@@ -210,10 +215,12 @@ def run_mp_case(seed, idx):
             viol.append({"sig": sig, "what": f"multiprocess request failed: {e!r}", "case": case})
             return viol, cnt, case, []
         cnt["mp_runs"] = 1
+        if case["inline"]:
+            cnt["mp_inlined_saver_runs"] = 1
         for e in oracle.check_chunks(chunks, out[case["target"]], 0, t1):
             viol.append({"sig": {"stage": "request", "kind": "rows" if "rows" in e else "tiling", "mp": True},
                          "what": f"multiprocess: {e}", "case": case})
-        st2 = strax.Context(storage=[strax.DataDirectory(d)], register=mp.ALL,
+        st2 = strax.Context(storage=[strax.DataDirectory(d)], register=reg,
                             config=dict(mp_rows=tuple(rows), mp_cuts=tuple(cuts)), processors=["single_thread"],
                             forbid_creation_of=("*",))
         for dt in out:
